@@ -189,6 +189,8 @@ class Executor(Evaluator):
     def s_If(self, stmt, st):
         out = []
         for s0, c in self.eval_multi(stmt.test, st):
+            if isinstance(c, Opaque):
+                c = fresh_bool("opaque")
             for s, taken in self.branch(s0, c):
                 out.extend(self.exec_block(stmt.body if taken else stmt.orelse, s))
         return out
@@ -208,8 +210,12 @@ class Executor(Evaluator):
                 return True
         return False
 
+    OPAQUE_CALLS = ("function_from_address", "build_function_address_list", "get_function_addresses")
+
     def is_user_call(self, node, st):
         f = node.func
+        if isinstance(f, ast.Name) and f.id in self.OPAQUE_CALLS:
+            return False
         if isinstance(f, ast.Name):
             if f.id in st.env:
                 v = st.env[f.id]
@@ -306,7 +312,7 @@ class Executor(Evaluator):
                 return truth(self.eval(args[0], st))
             if name in ("range", "enumerate"):
                 return (name,) + tuple(self.eval(a, st) for a in args)
-            if name in ("function_from_address",):
+            if name in self.OPAQUE_CALLS:
                 return Opaque(name)
             if self.is_user_call(node, st):
                 res = self.call_multi(node, st)
@@ -421,6 +427,10 @@ class Executor(Evaluator):
         if node.keywords:
             raise Unsupported("keyword arguments in a user call")
         self.line = node.lineno
+        gc = getattr(self.cur_contract, "extra", {}).get("ghost_calls", {}) if self.cur_contract else {}
+        if node.func.id in gc and self.module is self.fi.module:
+            gname = gc[node.func.id]
+            st.env[gname] = st.env.get(gname, 0) + 1
         if kind == "iface":
             con = self.contracts.interfaces[target.split(":", 1)[1]]
             return self.call_by_contract(con, None, args, st, node)
